@@ -155,7 +155,8 @@ def line_case(draw, tier='quick', max_lines=8):
         'delete_plain', 'insert_plain', 'mark_both', 'substring_line',
         'substring_line', 'substring_actual_only', 'dup_line', 'rem_line',
         'long_line', 'blank_tail', 'insert_edge_marked',
-        'edge_marked_pair', 'only_rem', 'bom']), min_size=0, max_size=3))
+        'edge_marked_pair', 'only_rem', 'bom', 'dup_excused']), min_size=0,
+        max_size=3))
     if not edits and draw(st.integers(0, 2)) != 0:
         edits = [draw(st.sampled_from(['refill', 'pad', 'swap', 'fchar',
                                        'insert_marked', 'substring_line']))]
@@ -293,6 +294,20 @@ def line_case(draw, tier='quick', max_lines=8):
                 ref.insert(draw(st.integers(0, len(ref))), line + ' 2')
             if enable():
                 opts['preprocess'] = 'drop_rem'
+        elif e == 'dup_excused':
+            # one text twice on the actual side: the first time against a
+            # plain, different reference line (an unexcused difference), the
+            # second time against a reference line that an ignore-substring
+            # excuses; a remove-substring is in force as well
+            sub = draw(st.sampled_from(SUBSTRINGS))
+            k = draw(st.integers(0, min(len(act), len(ref))))
+            act[k:k] = ['SAME LINE', 'SAME LINE']
+            ref[k:k] = ['PLAIN OTHER', 'X ' + sub + ' OLD']
+            if draw(st.booleans()):
+                act[k:k + 2], ref[k:k + 2] = ref[k:k + 2], act[k:k + 2]
+                ref[k + 1], act[k + 1] = act[k + 1], ref[k + 1]
+            subs.append(sub)
+            marks.append(draw(st.sampled_from(MARKERS)))
         elif e == 'bom' and act and ref:
             # U+FEFF as the first character of a text: a character like any
             # other (on one side it is a difference, on both it is not)
